@@ -11,6 +11,7 @@ CONSTANTS MaxLinks = 1
  PinSer = FALSE
  PinBos = FALSE
  Spans = {0}
+ Dmg = {}
  PLen = 2
  ReadLens = {1,100}
  MaxCalls = 3
